@@ -1668,6 +1668,16 @@ func reuseGroupCfg(c *core.Case, r *rand.Rand, concurrent bool, kind string) {
 		}
 		gs.Scenarios = append(gs.Scenarios, sc)
 	}
+	if r.Intn(2) == 0 {
+		// hosted domains behind one server: every stream of the group is
+		// addressed to the same location, which is none of the sessions' own
+		// domains
+		loc := domains[p[n]]
+		for i := range gs.Scenarios {
+			gs.Scenarios[i].Location = loc
+		}
+		c.Count("reuse_groups_addressed_to_one_location", 1)
+	}
 	c.Sample(gs)
 	shared := clientConfig(kind)
 	before := fingerprint(shared)
@@ -2002,7 +2012,7 @@ func Prop() *core.Prop {
 		Level: core.Exploration,
 		Race:  true,
 		Units: "sessions",
-		Rule:  "a case is a group of client sessions (features StartTLS, SASL PLAIN, BindResource, optionally an instrumented feature with Necessary: Secure, in a PRNG order) over bufconn.Pipe against a concurrent scripted peer: 70% tee comparisons (one script = advertisement [STARTTLS required/optional, alone/among others, absent with mechanisms, empty list, unknown only, wrong namespace] x answer to <starttls/> [<proceed/> + real crypto/tls handshake, <proceed/> + clear text pipelined in the same write then handshake or EOF, <proceed/> then EOF or clear text after the ClientHello, <failure/>, unknown element, wrong namespace, text, EOF, forged <success/>, second features list, stream error] (each of the last nine also led by white space: white space then <proceed/> + handshake, then EOF, then <failure/>, then a clear-text features list inviting SASL and bind) x in-TLS script [full SASL+bind, empty features, EOF, SASL failure] x protected stream headers [complete, without id, without version, without both; the clear-text header always has id and version] x explicit/default TLS config, run without the tee and with 1-3 of tee in/out/both), 20% one StartTLS(nil) value reused sequentially for 2-5 sessions with different domains, 10% the same concurrently (children are built with -race). Oracles per session: bytes before the first TLS record tokenise to XML declaration + one stream header + at most one <starttls/>; only TLS records follow; Ready => Secure, ConnectionState().HandshakeComplete and the peer reached, inside TLS, the point that legitimately makes a client ready; Authn or a Secure-requiring feature only after the handshake; default config => ClientHello server name = domain of the session's address; once the peer has completed a handshake Session.In() (sampled at the end and inside Secure-requiring features) never shows the clear-text header's id, and shows version 1.0 only if a protected header carried it. Tee relation: identical clear-text bytes and outcome class (nil error, state bits, handshake, sequence of client events in clear and inside TLS). distinct = (advertisement, answer, in-TLS script, tee, cfg, instrumented, outcome class).",
+		Rule:  "a case is a group of client sessions (features StartTLS, SASL PLAIN, BindResource, optionally an instrumented feature with Necessary: Secure, in a PRNG order) over bufconn.Pipe against a concurrent scripted peer: 70% tee comparisons (one script = advertisement [STARTTLS required/optional, alone/among others, absent with mechanisms, empty list, unknown only, wrong namespace] x answer to <starttls/> [<proceed/> + real crypto/tls handshake, <proceed/> + clear text pipelined in the same write then handshake or EOF, <proceed/> then EOF or clear text after the ClientHello, <failure/>, unknown element, wrong namespace, text, EOF, forged <success/>, second features list, stream error] (each of the last nine also led by white space: white space then <proceed/> + handshake, then EOF, then <failure/>, then a clear-text features list inviting SASL and bind) x in-TLS script [full SASL+bind, empty features, EOF, SASL failure] x protected stream headers [complete, without id, without version, without both; the clear-text header always has id and version] x explicit/default TLS config, run without the tee and with 1-3 of tee in/out/both), 20% one StartTLS(nil) value reused sequentially for 2-5 sessions with different domains (every other group addressed to one common location that is none of their domains), 10% the same concurrently (children are built with -race). Oracles per session: bytes before the first TLS record tokenise to XML declaration + one stream header + at most one <starttls/>; only TLS records follow; Ready => Secure, ConnectionState().HandshakeComplete and the peer reached, inside TLS, the point that legitimately makes a client ready; Authn or a Secure-requiring feature only after the handshake; default config => ClientHello server name = domain of the session's address; once the peer has completed a handshake Session.In() (sampled at the end and inside Secure-requiring features) never shows the clear-text header's id, and shows version 1.0 only if a protected header carried it. Tee relation: identical clear-text bytes and outcome class (nil error, state bits, handshake, sequence of client events in clear and inside TLS). distinct = (advertisement, answer, in-TLS script, tee, cfg, instrumented, outcome class).",
 		Assumptions: []string{
 			"XML clear text never contains a byte sequence that looks like a TLS record header (control bytes 20-23 are not legal XML characters)",
 			"the harness certificate is made the process's only system root through SSL_CERT_FILE so that sessions with no TLS configuration can complete a handshake",
